@@ -264,7 +264,7 @@ enum POp {
     Advance(u64),
     Render,
 }
-fn prom(ctx: &Ctx, res: &mut PartResult, depth: usize, mask_i: usize) {
+fn prom(ctx: &Ctx, res: &mut PartResult, depth: usize, mask_i: usize, global_label: bool) {
     res.engine = "E3 bounded exhaustive update/advance/render sequences through the real Prometheus exporter under a mock clock".into();
     vseq::quiet_panics();
     let alpha = [POp::Inc, POp::Set, POp::Rec, POp::Advance(1), POp::Advance(T), POp::Advance(T + 1), POp::Render];
@@ -277,7 +277,12 @@ fn prom(ctx: &Ctx, res: &mut PartResult, depth: usize, mask_i: usize) {
     let replay_seq: Option<Vec<usize>> = ctx.replay.as_ref().and_then(|r| r["seq"].as_array().map(|a| a.iter().map(|x| x.as_u64().unwrap() as usize).collect()));
     let mut run_seq = |seq: &[usize]| -> Option<usize> {
         let (clock, mock) = Clock::mock();
-        let rec = PrometheusBuilder::new().idle_timeout(mask, Some(Duration::from_nanos(T))).verif_build_with_clock(clock);
+        let mut b = PrometheusBuilder::new().idle_timeout(mask, Some(Duration::from_nanos(T)));
+        if global_label {
+            // the aggregated distributions are keyed by the merged label set: expiry has to find them under it too
+            b = b.add_global_label("service", "demo");
+        }
+        let rec = b.verif_build_with_clock(clock);
         let h = rec.handle();
         let mut ms: Vec<MState> = vec![MState::default(); 3];
         let mut now = 0u64;
@@ -470,6 +475,7 @@ fn parts(ctx: &Ctx) -> Vec<PartSpec> {
         }
         v.push(PartSpec::new(&format!("prometheus-mask{}", mi), json!({"prom": true, "mask": mi, "depth": if ctx.quick() { 6 } else { 8 }})).budget(if ctx.quick() { 150.0 } else { 2400.0 }));
     }
+    v.push(PartSpec::new("prometheus-mask3-global-label", json!({"prom": true, "mask": 3, "global": true, "depth": if ctx.quick() { 5 } else { 7 }})).budget(if ctx.quick() { 150.0 } else { 2400.0 }));
     for (ki, kn) in ["counter", "gauge", "histogram"].iter().enumerate() {
         let pb = if ctx.quick() { 2 } else { 4 };
         v.push(PartSpec::new(&format!("e1-update-vs-observe-{}-pb{}", kn, pb), json!({"e1": pb, "kind": ki})).cpus("0").budget(if ctx.quick() { 150.0 } else { 1500.0 }));
@@ -485,7 +491,7 @@ fn run(ctx: &Ctx, spec: &PartSpec) -> PartResult {
         let kind = [K::C, K::G, K::H][spec.arg["kind"].as_u64().unwrap_or(0) as usize];
         e1_update_vs_observe(ctx, &mut res, pb as usize, kind);
     } else if spec.arg["prom"].as_bool() == Some(true) {
-        prom(ctx, &mut res, depth, mask);
+        prom(ctx, &mut res, depth, mask, spec.arg["global"].as_bool().unwrap_or(false));
     } else {
         direct(ctx, &mut res, depth, mask, spec.arg["timeout"].as_bool().unwrap_or(true), spec.arg["first"].as_u64().map(|x| x as usize));
     }
